@@ -204,9 +204,17 @@ def r5(ctx):
                   key="C03|C03.R5|%s|climb start" % nm.split("::")[-1])
 
 
-RULES = [r1, r2, r2b, r3, r4, r5]
+def r6(ctx):
+    """replica reopen: what a replica accepted survives close/reopen only if the accepted proof is
+    logged before it is committed in memory and the periodic flush runs after the commit — the
+    ordering clauses of C02.R2, required here for verify_and_apply_proof"""
+    from . import c02
+    c02.order_rule(ctx, P, "C03.R6", VAP, BS_PUT, True)
+
+
+RULES = [r1, r2, r2b, r3, r4, r5, r6]
 EXPLANATION = ("C03 (honest proofs accepted, replicas converge): acceptance and convergence depend on flat-tree arithmetic that no structural rule captures; decided narrowly: create_proof reads the value for "
                "the proof's own block index, returns Ok(None) without building a proof when that block is not held, and passes request and proof parts through unchanged (R1); byte_offset_in_changeset sums "
-               "root lengths over the same root list in which it searched the position, and its panic-capable constructs are discharged (R2); sibling agreement: upgrade_proof / additional_upgrade_proof share branch conditions and flat-tree navigation except for the sub-proof inclusion, and verify_tree's two climbing loops are the same walk (R3); writer (block_and_seek_proof, seek_proof) and reader (verify_tree) climb sibling-then-parent once per level, the reader shifting iter.sibling() and recomputing at iter.parent() (R4); writer and reader connect an upgrade to the existing tree from the same place — the writer from the requester's last leaf (from - 2), the reader from the last root of the changeset (R5).")
+               "root lengths over the same root list in which it searched the position, and its panic-capable constructs are discharged (R2); sibling agreement: upgrade_proof / additional_upgrade_proof share branch conditions and flat-tree navigation except for the sub-proof inclusion, and verify_tree's two climbing loops are the same walk (R3); writer (block_and_seek_proof, seek_proof) and reader (verify_tree) climb sibling-then-parent once per level, the reader shifting iter.sibling() and recomputing at iter.parent() (R4); writer and reader connect an upgrade to the existing tree from the same place — the writer from the requester's last leaf (from - 2), the reader from the last root of the changeset (R5); an accepted proof is logged before it is committed in memory and flushed after the commit, so that it survives replica reopen (R6, the ordering clauses of C02.R2).")
 NOT_DECIDED = ("that any honest proof verifies; agreement of node counts with missing_nodes; partial upgrades; convergence of lengths and bytes; request orders; replica reopen — the bulk of the property is not decided statically.")
 ASSUMPTIONS = ["flat_tree index arithmetic is correct"]
